@@ -12,6 +12,7 @@ import DeapModel.Lemmas.C07Refs
 import DeapModel.Lemmas.C07Assoc
 import DeapModel.Lemmas.C07Select
 import DeapModel.Lemmas.C07Norm
+import DeapModel.Lemmas.C07Transl
 
 set_option linter.unusedSectionVars false
 set_option linter.unusedVariables false
@@ -19,9 +20,9 @@ set_option linter.unusedVariables false
 namespace C07
 open Spea2 Nsga3 C07L
 
-/-! ## SPEA2 (`selSPEA2`, emo.py:705-821)
+/-! ## SPEA2 (`selSPEA2`, emo.py:708-824)
 
-`dom` is the dominance test between two positions, `fits` the line-756 values (raw fitness plus
+`dom` is the dominance test between two positions, `fits` the line-759 values (raw fitness plus
 density), `D` the squared distances — the theorems hold for **every** `fits` and `D` and every
 scalar type with a decidable `<` (no order axioms), so the quick-select, `sqrt(N)` and all float
 arithmetic are irrelevant to them. -/
@@ -103,7 +104,7 @@ example : (1 : Nat) ≤ 2 ∧ 2 ≤ [[1, 2], [2, 1], [0, 0]].length := by decide
 
 end SPEA2
 
-/-! ### the quick-select behind `kth_dist` (`_randomizedSelect`, emo.py:824-859)
+/-! ### the quick-select behind `kth_dist` (`_randomizedSelect`, emo.py:827-862)
 
 A tape entry is the offset of the `random.randint(begin, end)` draw, read modulo the range size,
 so the theorems are for every sequence of pivot draws. -/
@@ -135,7 +136,7 @@ example : randomizedPartition [3, 5, 1, 4, 1, 3] 0 5 3 = some ([3, 1, 1, 3, 5, 4
 
 end Select
 
-/-! ## NSGA-III (`niching`, `selNSGA3`, emo.py:492-573, 640-674)
+/-! ## NSGA-III (`niching`, `selNSGA3`, emo.py:492-573, 643-677)
 
 `tape` carries the result of every `numpy.random.shuffle`; all theorems are for every tape. -/
 
@@ -241,7 +242,7 @@ example : ([[3, 1], [0, 2, 4]] : List (List Nat)).getLast? = some [0, 2, 4] ∧
 
 end NSGA3
 
-/-! ## association (`associate_to_niche`, emo.py:620-638), over ℝ -/
+/-! ## association (`associate_to_niche`, emo.py:623-641), over ℝ -/
 
 /-- the coded distance is the Euclidean distance of the normalised point to its orthogonal
 projection on the reference direction … -/
@@ -272,7 +273,7 @@ theorem associate_argmin (refs : List (List ℝ)) (best intercepts f : List ℝ)
 example : [[(1 : ℝ), 0], [0, 1]] ≠ [] := List.cons_ne_nil _ _
 
 /-! ## normalisation (`selNSGA3` 546-557, `find_extreme_points` 577-593, `find_intercepts`
-596-617), over ℝ; `numpy.linalg.solve` is the parameter `solve` -/
+596-620), over ℝ; `numpy.linalg.solve` is the parameter `solve` -/
 
 /-- the ideal point is the componentwise minimum of the population (and of the remembered ideal
 point in the memory variant): a lower bound that is attained. -/
@@ -313,7 +314,8 @@ theorem extreme_argmin (fits : List (List ℝ)) (best : List ℝ) (ext : Option 
 example : extRows [[(1 : ℝ), 2]] none ≠ [] ∧ 1 < [(0 : ℝ), 0].length := ⟨List.cons_ne_nil _ _, by simp⟩
 
 /-- `find_intercepts` answers the worst point (singular system), the front's worst point (a zero
-component or a failed acceptance test), or `1/x` for a solution that passed the acceptance test. -/
+component or a failed acceptance test), or `1/x + ideal` for a solution that passed the acceptance
+test (fix F21: the hyperplane intercepts are made absolute). -/
 theorem intercepts_cases (solve : List (List ℝ) → List ℝ → Option (List ℝ))
     (extreme : List (List ℝ)) (best worst frontWorst : List ℝ) :
     let A := extreme.map (fun r => List.zipWith (· - ·) r best)
@@ -321,11 +323,12 @@ theorem intercepts_cases (solve : List (List ℝ) → List ℝ → Option (List 
     (solve A b = none ∧ findIntercepts solve extreme best worst frontWorst = worst) ∨
     (findIntercepts solve extreme best worst frontWorst = frontWorst) ∨
     (∃ x, solve A b = some x ∧ x.any isZero = false ∧ acceptIntercepts A x best worst = true ∧
-      findIntercepts solve extreme best worst frontWorst = x.map (fun v => RealLike.ofNat 1 / v)) :=
+      findIntercepts solve extreme best worst frontWorst =
+        List.zipWith (· + ·) (x.map (fun v => RealLike.ofNat 1 / v)) best) :=
   findIntercepts_cases solve extreme best worst frontWorst
 
 /-- accepted hyperplane intercepts: the contract `A·x = 1` holds up to `allclose`, every intercept
-exceeds `1e-6` (so is positive), and ideal + intercept stays within the worst point. -/
+(measured from the ideal point) exceeds `1e-6`, and ideal + intercept stays within the worst point. -/
 theorem intercepts_pos (A : List (List ℝ)) (x best worst : List ℝ)
     (h : acceptIntercepts A x best worst = true) :
     (∀ row ∈ A, |dot row x - 1| ≤ 1 / 100000000 + 1 / 100000 * |(1 : ℝ)|) ∧
@@ -335,27 +338,6 @@ theorem intercepts_pos (A : List (List ℝ)) (x best worst : List ℝ)
 
 example : acceptIntercepts [[(3 : ℝ), 0], [0, 3]] [1 / 3, 1 / 3] [5, 5] [8, 8] = true := accept_example
 
-/-- FULL statement asked for ("the normalisation never divides by a non-positive number"): not
-provable — see `norm_denominator_pos_refuted`. -/
-def norm_denominator_pos_Statement : Prop :=
-  ∀ (A : List (List ℝ)) (x best worst : List ℝ), acceptIntercepts A x best worst = true →
-    ∀ d ∈ List.zipWith (fun i b => i - b + (eps : ℝ)) (x.map (fun v => (1 : ℝ) / v)) best, 0 < d
-
-/-- what holds: (1) whenever the intercepts are componentwise ≥ the ideal point — which is the case
-for both fallback answers computed by `selNSGA3` (`fallback_ge_ideal`) — every denominator of line
-624 is ≥ eps > 0; (2) for accepted hyperplane intercepts the denominators are positive under the
-extra hypothesis that the ideal point is componentwise ≤ 0. -/
-theorem norm_denominator_pos_partial :
-    (∀ (intercepts best : List ℝ), (∀ p ∈ List.zip intercepts best, p.2 ≤ p.1) →
-      ∀ d ∈ List.zipWith (fun i b => i - b + (eps : ℝ)) intercepts best, (eps : ℝ) ≤ d ∧ 0 < d) ∧
-    (∀ (A : List (List ℝ)) (x best worst : List ℝ), acceptIntercepts A x best worst = true →
-      (∀ b ∈ best, b ≤ 0) →
-      ∀ d ∈ List.zipWith (fun i b => i - b + (eps : ℝ)) (x.map (fun v => (1 : ℝ) / v)) best, 0 < d) :=
-  ⟨denominator_pos_of_ge, denominator_pos_of_accept⟩
-
-example : ∀ p ∈ List.zip [(8 : ℝ), 9] [5, 4], p.2 ≤ p.1 := by
-  intro p hp; simp at hp; rcases hp with h | h <;> (rw [h]; norm_num)
-
 /-- the two fallback answers of the model's own normalisation are componentwise ≥ its ideal point. -/
 theorem fallback_ge_ideal (r0 : List ℝ) (rs : List (List ℝ)) (hrect : ∀ r ∈ rs, r.length = r0.length) :
     (∀ p ∈ List.zip (colMax0 (r0 :: rs)) (idealPoint (r0 :: rs) none), p.2 ≤ p.1) ∧
@@ -364,10 +346,58 @@ theorem fallback_ge_ideal (r0 : List ℝ) (rs : List (List ℝ)) (hrect : ∀ r 
       (∀ p ∈ List.zip (worstPoint (r0 :: rs) (some mw)) (idealPoint (r0 :: rs) (some mb)), p.2 ≤ p.1)) :=
   ⟨fallback_ge_ideal_nomem r0 rs hrect, fun mb mw hb hw => fallback_ge_ideal_mem r0 rs mb mw hrect hb hw⟩
 
-/-- the code as written violates the full statement: the hyperplane intercepts are relative to the
-ideal point, yet line 624 subtracts the ideal point again.  Ideal (5,5), extreme points (8,5),(5,8),
-worst (8,8): accepted intercepts (3,3), denominators `3 - 5 + eps < 0`. -/
-theorem norm_denominator_pos_refuted : ¬ norm_denominator_pos_Statement := by
+example : ∀ r ∈ [[(2 : ℝ), 7]], r.length = [(4 : ℝ), 1].length := by simp
+
+/-- the normalisation (line 627) never divides by a non-positive number: for every answer of
+`solve`, every remembered extreme-point set, with and without memory, each denominator
+`intercept - ideal + eps` of the model's own normalisation is positive. -/
+theorem norm_denominator_pos (solve : List (List ℝ) → List ℝ → Option (List ℝ))
+    (r0 : List ℝ) (rs : List (List ℝ)) (hrect : ∀ r ∈ rs, r.length = r0.length)
+    (me : Option (List (List ℝ))) :
+    (∀ d ∈ List.zipWith (fun i b => i - b + (eps : ℝ))
+        (normalisation solve (r0 :: rs) none none me).2.2.2
+        (normalisation solve (r0 :: rs) none none me).1, 0 < d) ∧
+    (∀ mb mw : List ℝ, mb.length = r0.length → mw.length = r0.length →
+      ∀ d ∈ List.zipWith (fun i b => i - b + (eps : ℝ))
+        (normalisation solve (r0 :: rs) (some mb) (some mw) me).2.2.2
+        (normalisation solve (r0 :: rs) (some mb) (some mw) me).1, 0 < d) :=
+  normalisation_denominator_pos solve r0 rs hrect me
+
+example : ∀ r ∈ [[(8 : ℝ), 5], [5, 8]], r.length = [(6 : ℝ), 6].length := by simp
+
+/-- translation invariance of the association: shifting every objective vector, the remembered
+ideal / worst point and the remembered extreme points by one constant vector `c` leaves every niche
+and every distance unchanged — for the SAME `solve` on both sides (nothing is assumed about it: it
+only ever sees `extreme - ideal` and the vector of ones, which the translation does not change). -/
+theorem association_translation_invariant
+    (solve : List (List ℝ) → List ℝ → Option (List ℝ))
+    (fits refs : List (List ℝ)) (c : List ℝ)
+    (mb mw : Option (List ℝ)) (me : Option (List (List ℝ)))
+    (hne : fits ≠ [])
+    (hfits : ∀ r ∈ fits, r.length = c.length)
+    (hmb : ∀ m, mb = some m → m.length = c.length)
+    (hmw : ∀ m, mw = some m → m.length = c.length)
+    (hme : ∀ e, me = some e → ∀ r ∈ e, r.length = c.length) :
+    let n  := normalisation solve fits mb mw me
+    let n' := normalisation solve (fits.map (Transl.shift c)) (mb.map (Transl.shift c))
+                (mw.map (Transl.shift c)) (me.map (List.map (Transl.shift c)))
+    associate (fits.map (Transl.shift c)) refs n'.1 n'.2.2.2 = associate fits refs n.1 n.2.2.2 :=
+  Transl.association_translation_invariant solve fits refs c mb mw me hne hfits hmb hmw hme
+
+example : ([[1, 2], [3, 0]] : List (List ℝ)) ≠ [] ∧
+    ∀ r ∈ ([[1, 2], [3, 0]] : List (List ℝ)), r.length = ([5, 7] : List ℝ).length :=
+  ⟨List.cons_ne_nil _ _, by intro r hr; simp only [List.mem_cons, List.not_mem_nil, or_false] at hr
+                            rcases hr with rfl | rfl <;> rfl⟩
+
+/-- the formula BEFORE fix F21 (accepted intercepts returned as `1/x`, relative to the ideal point,
+and the ideal point subtracted again in line 627): denominators positive for every accepted `x`. -/
+def old_formula_denominator_pos : Prop :=
+  ∀ (A : List (List ℝ)) (x best worst : List ℝ), acceptIntercepts A x best worst = true →
+    ∀ d ∈ List.zipWith (fun i b => i - b + (eps : ℝ)) (x.map (fun v => (1 : ℝ) / v)) best, 0 < d
+
+/-- the old formula was wrong: ideal (5,5), extreme points (8,5),(5,8), worst (8,8) — accepted
+intercepts (3,3), denominators `3 - 5 + eps < 0`. -/
+theorem old_formula_refuted : ¬ old_formula_denominator_pos := by
   intro h
   have d0 := h [[3, 0], [0, 3]] [1 / 3, 1 / 3] [5, 5] [8, 8] accept_example
     ((1 : ℝ) / (1 / 3) - 5 + eps) (by simp)
@@ -375,7 +405,7 @@ theorem norm_denominator_pos_refuted : ¬ norm_denominator_pos_Statement := by
   norm_num at d0
   linarith
 
-/-! ## reference points (`uniform_reference_points`, emo.py:677-698) -/
+/-! ## reference points (`uniform_reference_points`, emo.py:680-701) -/
 
 /-- exactly C(M+p-1, p) points. -/
 theorem refpoints_card (nobj p : Nat) (hn : 1 ≤ nobj) (hp : 1 ≤ p) (s : Option Rat) :
